@@ -30,9 +30,14 @@ What is proved, and how strongly.
 * `sound` — the "never a wrong position" clause as a theorem about WHOLE histories, by induction over the
   history: `EncodesAll H → Kin upd reference H → every attached position is the lattice point of its own
   report's true position`.  `Kin` is state-independent (true positions, kinds, addresses, RECORDED time stamps
-  only); `kin_of_deg` derives it from bounds in degrees between true positions (`KinDeg`).  What is NOT a
-  theorem: "≤ 700 kt, 10 s / 180 s windows, receiver within 40 NM, time stamps disordered only locally ⇒
-  `KinDeg`" (spherical kinematics: simulation only), and the conversion of the lattice point to "within 25 m".
+  only); `kin_of_deg` derives it from bounds in degrees between true positions (`KinDeg`).
+* `sound_within_25m`, `sound_deg_within_25m` (`recovered_within_25m`) — the "within 25 m" clause IN METRES, a
+  theorem given `Kin` / `KinDeg`: every attached position is at great-circle distance ≤ 9.629 m (airborne) /
+  ≤ 2.408 m (surface), hence < 25 m, from the true position of its own report, on the sphere of radius
+  6 399 594 m (largest radius of curvature of WGS-84), by the metric lemmas of C04/C05 (`Proofs/CprMetres*`;
+  the turn of the recovered longitude does not matter).  What is NOT a theorem: "≤ 700 kt, 10 s / 180 s
+  windows, receiver within 40 NM, time stamps disordered only locally ⇒ `KinDeg`" (spherical kinematics:
+  simulation only), and ellipsoid-vs-sphere (geodesic distance on WGS-84 ≤ great-circle distance on that sphere).
   `disorder_outside_kin`: outside `Kin` (time stamps exchanged across a long silence) a wrong position is
   attached — by the real code as well.
 * `sound_step`, `sound_partial` — the one-step lemmas `sound` is built from (hypothesis on the decoder's state).
@@ -44,6 +49,7 @@ The `def`s of this file are statement vocabulary only (`entryOf`, `Truth`, `Enco
 -/
 import Rs1090.Proofs.CprStateInv
 import Rs1090.Proofs.CprStateKin
+import Rs1090.Proofs.CprStateMetres
 namespace Rs1090.Props.C06
 open Rs1090 Rs1090.Model.Cpr Rs1090.Model.CprState Rs1090.Spec.Cpr Rs1090.Proofs.Cpr Rs1090.Proofs.CprState
 
@@ -633,7 +639,8 @@ theorem sound_log (dist : Pos → Pos → Rat) (upd : Option (Report → Bool)) 
     true positions satisfy the state-independent kinematic hypothesis `Kin`, then every position the batch
     decoder attaches to the `k`-th report IS the lattice point `(Rlat, Rlon + 360·n)` of that report's own true
     position — which `recovered_close_*` (C04/C05) place within half a quantisation step of it per axis
-    (≤ 2.6 m airborne, ≤ 0.7 m surface; the conversion of degrees to metres is checked by the harness only).
+    (≤ 2.6 m airborne, ≤ 0.7 m surface), and `sound_within_25m` below within 9.629 m / 2.408 m great-circle
+    distance of it (metres, a theorem on the sphere of radius 6 399 594 m).
     The 50 km plausibility gate and the 1 km surface continuity test need nothing: they only remove positions.
 
     What remains OUTSIDE Lean: that aircraft flying at ≤ 700 kt whose time stamps are disordered only
@@ -729,6 +736,61 @@ theorem sound_deg (dist : Pos → Pos → Rat) (upd : Option (Report → Bool)) 
     (h : (decodePositions Gates.source dist upd reference (H.map Prod.fst))[k]? = some (some p)) :
     Recovered x.1 x.2 p :=
   sound dist upd reference H henc (kin_of_deg upd reference H henc hkin) k x p hx h
+
+/-! ### the 25 m clause, in metres -/
+
+open Rs1090.Proofs.Metres Rs1090.Proofs.Geo in
+/-- **A lattice point of a report is within 25 m of the report's true position**, on the sphere of radius
+    6 399 594 m (`R_MAX`, the largest radius of curvature of WGS-84; `gcDist` = great-circle distance,
+    `rad` = degrees → radians): at most 9.629 m for a BDS 0,5 report (17 bits), at most 2.408 m for a BDS 0,6
+    report (19 bits).  The turn `360·n` of the longitude in `Recovered` does not matter: the distance depends
+    on the longitude difference through `sin²(Δλ/2)` only (`Proofs.Metres.air_dist` / `surf_dist`, the metric
+    lemmas of C04/C05, take the recovered longitude on any turn). -/
+theorem recovered_within_25m (r : Report) (t : Truth) (henc : Encodes r t) (p : Pos) (h : Recovered r t p) :
+    gcDist 6399594 (rad t.lat) (rad t.lon) (rad p.lat) (rad p.lon) ≤ 9629 / 1000 ∧
+    (r.kind = .surface →
+      gcDist 6399594 (rad t.lat) (rad t.lon) (rad p.lat) (rad p.lon) ≤ 2408 / 1000) ∧
+    gcDist 6399594 (rad t.lat) (rad t.lon) (rad p.lat) (rad p.lon) < 25 := by
+  obtain ⟨hi, hlat, _⟩ := henc
+  unfold Recovered at h
+  cases hk : r.kind <;> simp only [hk] at h
+  · have := (lattice_air_metres t.i hi t.lat t.lon hlat p h).1
+    exact ⟨this, (fun h' => by cases h'), lt_of_le_of_lt this (by norm_num)⟩
+  · have := lattice_surf_metres t.i hi t.lat t.lon hlat p h
+    exact ⟨le_trans this (by norm_num), fun _ => this, lt_of_le_of_lt this (by norm_num)⟩
+
+open Rs1090.Proofs.Metres Rs1090.Proofs.Geo in
+/-- **The property's clause, in metres** — "every latitude/longitude attached to a report is within 25 m of
+    where that aircraft was when the report was encoded": under the hypotheses of `sound` (`EncodesAll`, `Kin`;
+    any history, interleaving, callback, distance function and initial reference), every position `p` the
+    batch decoder attaches to the `k`-th report is at great-circle distance at most 9.629 m (airborne report),
+    at most 2.408 m (surface report) — hence less than 25 m — from the true position `x.2` of THAT report, on
+    the sphere of radius 6 399 594 m.  Not a theorem: the geodesic distance on the WGS-84 ellipsoid (bounded by
+    the great-circle distance on the sphere of the largest radius of curvature; checked by the harness oracle
+    only), and "≤ 700 kt and the windows ⇒ `KinDeg`". -/
+theorem sound_within_25m (dist : Pos → Pos → Rat) (upd : Option (Report → Bool)) (reference : Option Pos)
+    (H : History) (henc : EncodesAll H) (hkin : Kin upd reference H)
+    (k : ℕ) (x : Report × Truth) (p : Pos) (hx : H[k]? = some x)
+    (h : (decodePositions Gates.source dist upd reference (H.map Prod.fst))[k]? = some (some p)) :
+    gcDist 6399594 (rad x.2.lat) (rad x.2.lon) (rad p.lat) (rad p.lon) ≤ 9629 / 1000 ∧
+    (x.1.kind = .surface →
+      gcDist 6399594 (rad x.2.lat) (rad x.2.lon) (rad p.lat) (rad p.lon) ≤ 2408 / 1000) ∧
+    gcDist 6399594 (rad x.2.lat) (rad x.2.lon) (rad p.lat) (rad p.lon) < 25 :=
+  recovered_within_25m x.1 x.2 (henc x (List.mem_of_getElem? hx)) p
+    (sound dist upd reference H henc hkin k x p hx h)
+
+open Rs1090.Proofs.Metres Rs1090.Proofs.Geo in
+/-- `sound_within_25m` under the degree form `KinDeg` of the kinematic hypothesis (bounds between TRUE
+    positions only): what is left to the simulation is exactly "≤ 700 kt and the windows ⇒ `KinDeg`". -/
+theorem sound_deg_within_25m (dist : Pos → Pos → Rat) (upd : Option (Report → Bool)) (reference : Option Pos)
+    (H : History) (henc : EncodesAll H) (hkin : KinDeg upd reference H)
+    (k : ℕ) (x : Report × Truth) (p : Pos) (hx : H[k]? = some x)
+    (h : (decodePositions Gates.source dist upd reference (H.map Prod.fst))[k]? = some (some p)) :
+    gcDist 6399594 (rad x.2.lat) (rad x.2.lon) (rad p.lat) (rad p.lon) ≤ 9629 / 1000 ∧
+    (x.1.kind = .surface →
+      gcDist 6399594 (rad x.2.lat) (rad x.2.lon) (rad p.lat) (rad p.lon) ≤ 2408 / 1000) ∧
+    gcDist 6399594 (rad x.2.lat) (rad x.2.lon) (rad p.lat) (rad p.lon) < 25 :=
+  sound_within_25m dist upd reference H henc (kin_of_deg upd reference H henc hkin) k x p hx h
 
 /-- all true positions of the history, and the receiver reference if any, lie within 1/50 ° of a point `c`
     in both coordinates (aircraft taxiing, holding or hovering around an airport; 2.2 km × ≥ 0.04 km) -/
@@ -1028,5 +1090,34 @@ example : Recovered branchHistory[2].1 branchHistory[2].2 ⟨68620005 / 966656, 
       constructor <;> rw [abs_le] <;> constructor <;> norm_num
   exact sound_deg distHigh none (some ⟨71, -95⟩) branchHistory henc (kinDeg_of_confined none _ _ _ hconf)
     2 _ _ rfl (by decide +kernel)
+
+open Rs1090.Proofs.Geo in
+/-- … and `sound_deg_within_25m` in metres: the positions attached to report 2 (airborne, reference branch) and
+    to report 3 (surface, last position) are within 9.629 m / 2.408 m of the true positions of those reports -/
+example :
+    gcDist 6399594 (rad (branchHistory[2].2.lat : ℚ)) (rad (branchHistory[2].2.lon : ℚ))
+      (rad ((68620005 / 966656 : ℚ) : ℝ)) (rad ((-778215 / 8192 : ℚ) : ℝ)) ≤ 9629 / 1000 ∧
+    gcDist 6399594 (rad (branchHistory[3].2.lat : ℚ)) (rad (branchHistory[3].2.lon : ℚ))
+      (rad ((274480425 / 3866624 : ℚ) : ℝ)) (rad ((-12451425 / 131072 : ℚ) : ℝ)) ≤ 2408 / 1000 := by
+  have henc : EncodesAll branchHistory := by
+    intro x hx
+    simp only [branchHistory, List.mem_cons, List.not_mem_nil, or_false] at hx
+    rcases hx with rfl | rfl | rfl | rfl | rfl <;>
+      exact ⟨by decide, by constructor <;> norm_num, by decide +kernel⟩
+  have hconf : Confined ⟨304885543845 / 4294967296, -408010903220 / 4294967296⟩ (some ⟨71, -95⟩)
+      branchHistory := by
+    constructor
+    · intro x hx
+      simp only [branchHistory, List.mem_cons, List.not_mem_nil, or_false] at hx
+      rcases hx with rfl | rfl | rfl | rfl | rfl <;>
+        (constructor <;> rw [abs_le] <;> constructor <;> norm_num)
+    · intro rf hrf
+      cases hrf
+      constructor <;> rw [abs_le] <;> constructor <;> norm_num
+  have hk := kinDeg_of_confined none _ _ _ hconf
+  exact ⟨(sound_deg_within_25m distHigh none (some ⟨71, -95⟩) branchHistory henc hk
+      2 _ ⟨68620005 / 966656, -778215 / 8192⟩ rfl (by decide +kernel)).1,
+    (sound_deg_within_25m distHigh none (some ⟨71, -95⟩) branchHistory henc hk
+      3 _ ⟨274480425 / 3866624, -12451425 / 131072⟩ rfl (by decide +kernel)).2.1 rfl⟩
 
 end Rs1090.Props.C06
